@@ -273,7 +273,8 @@ theorem insertKnot_matC (b : Basis K) (hv : b.Valid) (hper : b.periodic = -1) (x
   have hmn : mu ≤ b.numFunctions := by omega
   have hns : b.numFunctions + b.order = b.knots.size := by omega
   refine ⟨?_, hpm, hmn, hns, hm2', fun i h1 h2 => hm3' i h1 (by omega)⟩
-  rw [C04.insertKnot_eq]
+  rw [C04.insertKnot_eq b x (C04.not_coverCond_of_nonperiodic b (by rw [hper]; decide))
+    (fun y _ => C04.insertMu_nonperiodic b (by rw [hper]; decide) y)]
   have hw : C04.wrapX b x = .ok x := by
     unfold C04.wrapX
     rw [if_neg (by rw [hper]; decide),
